@@ -186,7 +186,12 @@ func newError(rt *runtime, name string, stackFramesToPop int, in ...interface{})
 	} else if length > 0 {
 		description, in = in[0].(string), in[1:]
 	}
-	err.message = err.describe(description, in...)
+	if len(in) > 0 {
+		err.message = err.describe(description, in...)
+	} else {
+		// Without arguments the description is text, not a format.
+		err.message = description
+	}
 
 	return err
 }
